@@ -117,13 +117,18 @@ Theorem C20_partial_build_keys : forall raw, guard_F20k raw = true -> guard_F20m
 Proof. exact build_keys_partial. Qed.
 Print Assumptions C20_partial_build_keys.
 
-Theorem C20_refuted_F20k : guard_F20k [w_a_b] = false /\ guard_F20m [w_a_b] = true /\ build_keys [w_a_b] = None.
+Theorem C20_refuted_F20k :
+  (guard_F20k [w_a_b] = false /\ guard_F20m [w_a_b] = true /\ build_keys [w_a_b] = None)
+  \/ (post_init_keeps_output = true /\ build_keys [w_a_b] = Some [([65;66], 0%nat)]
+      /\ guard_F20k [w_n_o_n_e] = false /\ guard_F20m [w_n_o_n_e] = true /\ build_keys [w_n_o_n_e] = None).
 Proof. exact refuted_F20k. Qed.
 Print Assumptions C20_refuted_F20k.
 
-Example C20_F20k_duplicate : build_keys [w_a_b; w_Pet] = Some [([65;98], 0%nat); (w_Pet, 1%nat); (w_a_b, 0%nat)].
-Proof. exact F20k_duplicate. Qed.
-Print Assumptions C20_F20k_duplicate.
+Example C20_F20k_second_schema :
+  build_keys [w_a_b; w_Pet] = Some [([65;98], 0%nat); (w_Pet, 1%nat); (w_a_b, 0%nat)]
+  \/ build_keys [w_a_b; w_Pet] = Some [([65;66], 0%nat); (w_Pet, 1%nat)].
+Proof. exact F20k_second_schema. Qed.
+Print Assumptions C20_F20k_second_schema.
 
 Theorem C20_refuted_F20m : guard_F20k [w_foo_bar; w_FooBar] = true /\ guard_F20m [w_foo_bar; w_FooBar] = false
   /\ build_keys [w_foo_bar; w_FooBar] = Some [(w_FooBar, 0%nat)].
@@ -206,3 +211,30 @@ Theorem C20_guard_nonvacuous :
   /\ module_name_tok w_ok = [103;101;116;95;104;116;116;112;95;114;101;115;112;111;110;115;101;95;50].
 Proof. exact guards_nonvacuous. Qed.
 Print Assumptions C20_guard_nonvacuous.
+
+(* ---------------------------------------------------------------- clean_auto_generated_operation_id (CLEAN strategy) *)
+Theorem C20_full_clean_op_id_prefix : forall u_lower u_ign u_cased op_id method path,
+  let r := clean_op_id u_lower u_ign u_cased op_id method path in
+  r = op_id \/ (r <> [] /\ prefixb r op_id = true).
+Proof. exact clean_op_id_prefix. Qed.
+Print Assumptions C20_full_clean_op_id_prefix.
+
+Theorem C20_full_clean_op_id_method_valid : forall u_lower u_ign u_cased op_id method path,
+  valid_name (method_name (clean_op_id u_lower u_ign u_cased op_id method path)) = true.
+Proof. exact clean_op_id_method_valid. Qed.
+Print Assumptions C20_full_clean_op_id_method_valid.
+
+Example C20_clean_op_id_example : forall u_lower u_ign u_cased,
+  clean_op_id u_lower u_ign u_cased w_fastapi [80;79;83;84] [47;100;101;116;97;105;108;115]
+  = [99;114;101;97;116;101;95;100;101;116;97;105;108;115].
+Proof. exact clean_op_id_example. Qed.
+Print Assumptions C20_clean_op_id_example.
+
+(* ---------------------------------------------------------------- the second snake-caser, _to_module_name *)
+(* to_module_name_agrees : forall s, is_ident s = true -> to_module_name_ascii s = module_name_tok s      — FALSE: *)
+Theorem C20_refuted_to_module_name_agrees :
+  is_ident w_UserV2 = true /\ to_module_name_ascii w_UserV2 <> module_name_tok w_UserV2
+  /\ is_ident w_List = true /\ to_module_name_ascii w_List <> module_name_tok w_List.
+Proof. exact refuted_to_module_name_agrees. Qed.
+Print Assumptions C20_refuted_to_module_name_agrees.
+
